@@ -62,6 +62,7 @@ func runHistory(ft fataler, f pools.Factory, ops []pools.Op, opt runOpt) (*model
 	}
 	ep, _ := p.(pools.Epocher)
 	touched := map[string]uint64{}
+	lapsedVal := map[string]bool{} // values whose holder's lease lapsed (not released) since the last reload: their store record may linger
 	epoch := func() uint64 {
 		if ep != nil {
 			return ep.Epoch()
@@ -139,6 +140,9 @@ func runHistory(ft fataler, f pools.Factory, ops []pools.Op, opt runOpt) (*model
 			m.logf("advance->%d", e)
 			for _, x := range subs { // fixed order: no map iteration in the oracle's log
 				if at, ok := touched[x]; ok && e-at > f.Grace {
+					if v, holds := m.has[x]; holds {
+						lapsedVal[v] = true
+					}
 					m.onFree(x) // lease lapsed without renewal
 					delete(touched, x)
 				}
@@ -158,7 +162,13 @@ func runHistory(ft fataler, f pools.Factory, ops []pools.Op, opt runOpt) (*model
 				for _, x := range subs {
 					if want, holds := m.has[x]; holds {
 						if got := lookup(x); got != want {
-							m.fail(ft, "reload-changed", "after reload %s has %q, it was handed %q and never gave it up", x, got, want)
+							kind := "reload-changed"
+							if lapsedVal[want] {
+								// the value was re-assigned after an earlier holder's lease lapsed: the lapsed
+								// holder's record can still be in the store and win the conflict on reload
+								kind = "reload-changed/value-of-lapsed-holder"
+							}
+							m.fail(ft, kind, "after reload %s has %q, it was handed %q and never gave it up", x, got, want)
 							break
 						}
 					}
@@ -171,6 +181,7 @@ func runHistory(ft fataler, f pools.Factory, ops []pools.Op, opt runOpt) (*model
 					touched[x] = epoch()
 				}
 				m.freed = map[string]string{}
+				lapsedVal = map[string]bool{}
 			}
 		case pools.OpRemoteSet, pools.OpRemoteDel:
 			rm, ok := p.(pools.Remote)
